@@ -56,7 +56,10 @@ def analyse(case, res):
     if res.shutdown_hang:
         fails.append(Failure("C14.shutdown_hang", f"C14.shutdown_hang|{shape}|{res.shutdown_hang}",
                              f"shutdown after the failure of {sid} did not finish ({res.shutdown_hang})"))
-    if res.outcome == "returned" and not any(lv == "ERROR" for lv, _ in res.logs):
+    # (a simulator that goes away right after the reply to its *last* request has done all it was asked to do: a
+    # normal end of run() is then fine)
+    if (res.outcome == "returned" and not any(lv == "ERROR" for lv, _ in res.logs)
+            and not (kind == "close_after" and f.get("last"))):
         fails.append(Failure("C14.silent", f"C14.silent|{shape}",
                              f"{sid} failed ({kind}) but run() returned without raising or logging an error"))
     fin = {}
@@ -318,7 +321,8 @@ def shard(prop, tier, seed, shard, nshards):
     for name, scn in base_scenarios():
         counts = request_counts(scn)
         for sm in scn["sims"]:
-            kinds = LOCAL_KINDS if sm.get("transport") != "mem" else ["raise", "close", "reset"]
+            # close_after: the process dies *between* two requests (the request is answered, then the connection closes)
+            kinds = LOCAL_KINDS if sm.get("transport") != "mem" else ["raise", "close", "reset", "close_after"]
             for req in range(counts.get(sm["sid"], 0)):
                 for kind in kinds:
                     for sched in (SCHEDULES if tier == "thorough" else SCHEDULES[:2]):
@@ -327,7 +331,8 @@ def shard(prop, tier, seed, shard, nshards):
                             if i % nshards != shard or acc.out_of_time():
                                 continue
                             case = {"scenario": scn, "schedule": dict(sched, shutdown=sd),
-                                    "faults": [{"sim": sm["sid"], "req": req, "kind": kind}]}
+                                    "faults": [{"sim": sm["sid"], "req": req, "kind": kind,
+                                                "last": req == counts.get(sm["sid"], 0) - 1}]}
                             for f in check_case(case, acc):
                                 if len(acc.failures) < 30:
                                     acc.failures.append(f)
@@ -339,7 +344,8 @@ def shard(prop, tier, seed, shard, nshards):
                             continue
                         scn2 = dict(scn, run=dict(scn.get("run", {}), print_progress=pp, print_progress_default=True))
                         case = {"scenario": scn2, "schedule": dict(SCHEDULES[0], shutdown="release"),
-                                "faults": [{"sim": sm["sid"], "req": req, "kind": kind}]}
+                                "faults": [{"sim": sm["sid"], "req": req, "kind": kind,
+                                            "last": req == counts.get(sm["sid"], 0) - 1}]}
                         for f in check_case(case, acc):
                             if len(acc.failures) < 30:
                                 acc.failures.append(f)
@@ -357,8 +363,10 @@ def shard(prop, tier, seed, shard, nshards):
     def hcase(draw):
         c = draw(gen.cases(min_sims=2, debug_ok=False))
         sm = draw(st.sampled_from(c["scenario"]["sims"]))
-        kind = draw(st.sampled_from(LOCAL_KINDS if sm.get("transport") != "mem" else ["raise", "close", "reset", "raise_conn"]))
-        c["faults"] = [{"sim": sm["sid"], "req": draw(st.integers(0, 8)), "kind": kind}]
+        kind = draw(st.sampled_from(LOCAL_KINDS if sm.get("transport") != "mem" else ["raise", "close", "reset", "raise_conn", "close_after"]))
+        # (generated scenarios: whether the request is the simulator's last one is not known in advance, so a silent
+        # end after close_after is not judged there)
+        c["faults"] = [{"sim": sm["sid"], "req": draw(st.integers(0, 8)), "kind": kind, "last": True}]
         c["schedule"]["shutdown"] = draw(st.sampled_from(["release", "hold"]))
         return c
 
